@@ -110,18 +110,25 @@ class MAGen:
         self.Variable = Variable
         # ---- actions
         self.actions = {"a1": [], "a2": []}
+        # in most problems both agents use the SAME action names (act0, act1) for differently defined actions: a
+        # compiler that keys anything by action name must still keep the agents apart
+        same_names = rng.random() < 0.65
+        self.same_names = same_names
         for ag in self.agents:
             for ai in range(rng.randint(1, 2)):
-                a = self.gen_action(ag, "%s_act%d" % (ag.name, ai), InstantaneousAction)
+                name = ("act%d" % ai) if same_names else ("%s_act%d" % (ag.name, ai))
+                a = self.gen_action(ag, name, InstantaneousAction)
                 ag.add_action(a)
                 self.actions[ag.name].append(a)
-        # sometimes the very same Action object in both agents (it may only mention fluents both can resolve)
-        if rng.random() < 0.25:
+        # sometimes an identically defined action in both agents (it may only mention fluents both can resolve):
+        # the very same Action object, or an equal clone
+        if rng.random() < 0.3:
             a = self.gen_action(None, "shared_act", InstantaneousAction)
             if a is not None:
-                for ag in self.agents:
-                    ag.add_action(a)
-                    self.actions[ag.name].append(a)
+                for i, ag in enumerate(self.agents):
+                    b = a if (i == 0 or rng.random() < 0.5) else a.clone()
+                    ag.add_action(b)
+                    self.actions[ag.name].append(b)
         M.add_agent(a1)
         M.add_agent(a2)
         for _ in range(rng.randint(1, 2)):
@@ -297,6 +304,38 @@ def corpus():
     M.add_agent(a2)
     M.add_goal(Or(Equals(Dot(a1, n), 2), d))
     out.append(("conditional-increase-disjunctive-condition", M))
+
+    # 4. both agents have an action called `act` with DIFFERENT preconditions and conditional effects, and an action
+    #    called `same` with identical definitions (two equal but distinct Action objects)
+    M, a1, a2 = base("same-named-actions")
+    x, y, z, e = Fluent("x"), Fluent("y"), Fluent("z"), Fluent("e")
+    M.ma_environment.add_fluent(e, default_initial_value=False)
+    for ag in (a1, a2):
+        ag.add_private_fluent(x, default_initial_value=False)
+    a1.add_public_fluent(y, default_initial_value=False)
+    a2.add_public_fluent(z, default_initial_value=False)
+    act1 = InstantaneousAction("act")
+    act1.add_precondition(Or(x, e))
+    act1.add_effect(y, True, x)
+    act1.add_effect(e, False)
+    a1.add_action(act1)
+    act2 = InstantaneousAction("act")
+    act2.add_precondition(Or(Not(x), Dot(a1, y)))
+    act2.add_effect(z, True, Or(e, Dot(a1, y)))
+    act2.add_effect(x, True, Not(e))
+    act2.add_effect(e, True)
+    a2.add_action(act2)
+    for ag in (a1, a2):
+        same = InstantaneousAction("same")
+        same.add_precondition(Or(x, Not(e)))
+        same.add_effect(e, True, x)
+        same.add_effect(x, Not(x))
+        ag.add_action(same)
+    M.add_agent(a1)
+    M.add_agent(a2)
+    M.add_goal(Or(Dot(a1, y), Dot(a2, z)))
+    M.add_goal(e)
+    out.append(("same-named-actions", M))
     return out
 
 
@@ -504,8 +543,12 @@ class Comp:
                 if not tuples:
                     self.skipped = "no-ground-instance"
                     return
-                back = self.result.map_back_action_instance(
-                    ActionInstance(c, tuple(em.ObjectExp(o) for o in tuples[0]), agent=ag2))
+                try:
+                    back = self.result.map_back_action_instance(
+                        ActionInstance(c, tuple(em.ObjectExp(o) for o in tuples[0]), agent=ag2))
+                except Exception as e:  # noqa
+                    raise FlattenError("map_back_action_instance raised %s on %s.%s%s: %s" % (
+                        type(e).__name__, ag.name, c.name, tuple(o.name for o in tuples[0]), str(e)[:120]))
                 if back is None:
                     achievers.append(c)
                 else:
@@ -725,10 +768,12 @@ def run(ctx):
     stats = {"problems": len(problems), "corpus": ncorpus, "compiles": 0, "skipped": {}, "cases": 0, "goal_cases": 0,
              "variants_per_action": {}, "conditional_effects": 0, "forall_effects": 0, "dot_atoms": 0,
              "disjunctive_goals": 0, "fake_fluents": 0, "ground_fluents": {}, "lenient_fresh_fluent_refs": 0,
-             "shared_action_objects": 0, "compile_raised": {}}
+             "shared_action_objects": 0, "same_named_actions_across_agents": 0,
+             "compile_raised": {}}
     for label, M in problems:
         names = [a.name for ag in M.agents for a in ag.actions]
-        stats["shared_action_objects"] += 1 if len(names) != len(set(names)) else 0
+        stats["shared_action_objects"] += 1 if any(a is b for a in M.agents[0].actions for b in M.agents[1].actions) else 0
+        stats["same_named_actions_across_agents"] += 1 if len(names) != len(set(names)) else 0
         for kind in (0, 1):
             c = Comp(len(comps), label, M, kind)
             comps.append(c)
